@@ -232,6 +232,9 @@ def run_flat(rep, tier, seed, selftest, cfg):
         "tlc_config": mc_cfgs,
         "selftests": selftests,
     }
+    if cfg.get("extra"):
+        # a part of its own of the check (e.g. the same cases through the real command line tool)
+        coverage.update(cfg["extra"](rep, tier, seed, cases))
     return rep.finish("model_checking", coverage, cfg["assumptions"])
 
 
